@@ -220,9 +220,19 @@ impl CaseSink {
             s.push_str(&json_str(x));
         }
         s.push(']');
+        let hangs = crate::l2::hangs();
         if !extra.is_empty() {
             s.push(',');
             s.push_str(extra);
+        } else if !hangs.is_empty() {
+            s.push_str(",\"direct_violations\":[");
+            for (i, l) in hangs.iter().enumerate() {
+                if i > 0 {
+                    s.push(',');
+                }
+                s.push_str(&format!("{{\"id\":\"hang\",\"what\":\"the scenario did not finish within its time limit: a call of the client never returned\",\"line\":{}}}", json_str(l)));
+            }
+            s.push(']');
         }
         s.push('}');
         std::fs::write(self.dir.join("stats.json"), s).unwrap();
